@@ -161,6 +161,17 @@ static long long elemU8(uint8_t x) { return x; }
 static long long elemCh(char x) { return (unsigned char)x; }
 static long long elemInt(int x) { return x; }
 
+// sizes the specification writes as negative numbers (its integers have 32 bits): n > -2^30 stands for
+// 2^64 + n; -2^30 - j for 2^31, 2^31 + 1, 2^32 - 1, 2^32, 2^32 + 1, 2^63 (j = 0 .. 5)
+static size_t sizeFromCode(long long n)
+{
+  if (n >= 0 || n > -(1LL << 30)) return (size_t)n;
+  static const size_t tab[] = {size_t(1) << 31, (size_t(1) << 31) + 1, (size_t(1) << 32) - 1, size_t(1) << 32, (size_t(1) << 32) + 1, size_t(1) << 63};
+  const long long j = -(1LL << 30) - n;
+  if (j < 0 || j > 5) throw std::logic_error("driver: unknown size code");
+  return tab[j];
+}
+
 static Json num(size_t v) { return v <= 0x7fffffffULL ? Json((long long)v) : Json(-1); } // -1: does not fit a model integer
 
 static std::vector<int> ints(const Json &a)
@@ -724,7 +735,7 @@ struct StreamWorld : IWorld
     } else if (a == "View" || a == "ViewRest" || a == "ViewOver") {
       if (!cur) throw std::runtime_error("driver: no reader");
       // n < 0: 2^64 + n; ViewRest / ViewOver (live readers): everything written so far / one byte more
-      const size_t cnt = a == "View" ? (size_t)(long long)arg["n"].num() : cur->buffer->size() - cur->cursor + (a == "ViewOver" ? 1 : 0);
+      const size_t cnt = a == "View" ? sizeFromCode(arg["n"].num()) : cur->buffer->size() - cur->cursor + (a == "ViewOver" ? 1 : 0);
       try {
         auto view = cur->getView<uint8_t>(cnt);
         const size_t vs = view->size();
@@ -767,22 +778,72 @@ struct StreamWorld : IWorld
 struct FixedWorld : IWorld
 {
   std::unique_ptr<FixedBufferWriter> fw;
+  std::unique_ptr<FixedBufferWriter> twin; // same capacity, same calls, used alternately with fw by the same thread
+  std::shared_ptr<FixedArray<uint8_t>::View> early; // a getWrittenView() the caller has kept
+  uint8_t *resPtr = nullptr, *resPtrTwin = nullptr; // what the most recent reserve() returned
+  size_t resLen = 0;
 
-  Json state()
+  // run-length form of a byte range (lossless): [{b, n}, ...]
+  static Json runs(const AbstractArray<uint8_t> &v, size_t limit)
+  {
+    Json a = Json::array();
+    const size_t n = v.size();
+    if (n > limit) return Json("view-larger-than-buffer:" + std::to_string(n));
+    size_t i = 0;
+    while (i < n) {
+      size_t j = i;
+      while (j < n && v[j] == v[i]) ++j;
+      Json r = Json::object();
+      r.set("b", (int)v[i]);
+      r.set("n", num(j - i));
+      a.push(r);
+      i = j;
+    }
+    return a;
+  }
+
+  static Json state(FixedBufferWriter &f)
   {
     Json st = Json::object();
-    st.set("available", num(fw->available()));
-    st.set("capacity", num(fw->capacity()));
-    auto view = fw->getWrittenView();
+    st.set("available", num(f.available()));
+    st.set("capacity", num(f.capacity()));
+    auto view = f.getWrittenView();
     const size_t n = view->size();
-    if (n <= fw->capacity()) {
-      Json a = Json::array();
-      for (size_t i = 0; i < n; ++i) a.push(Json((int)(*view)[i]));
-      st.set("written", a);
-    } else {
-      st.set("written", "view-larger-than-buffer:" + std::to_string(n));
+    st.set("wsize", num(n));
+    st.set("runs", runs(*view, f.capacity()));
+    if (f.capacity() <= 4096) { // the bytes themselves for the small instances
+      if (n <= f.capacity()) {
+        Json a = Json::array();
+        for (size_t i = 0; i < n; ++i) a.push(Json((int)(*view)[i]));
+        st.set("written", a);
+      } else {
+        st.set("written", "view-larger-than-buffer:" + std::to_string(n));
+      }
     }
     return st;
+  }
+
+  // one call on one instance: "ok" / "throws"
+  static const char *put(FixedBufferWriter &f, bool isWrite, long long n, uint8_t b, uint8_t *&res)
+  {
+    const size_t size = sizeFromCode(n);
+    try {
+      if (isWrite) {
+        if (n < 0) throw std::logic_error("driver: a write of a huge size needs a source of that size");
+        std::vector<uint8_t> src((size_t)n, b);
+        f.write(src.data(), size);
+      } else {
+        void *mem = f.reserve(size);
+        res = (uint8_t *)mem;
+        if (n > 0) std::memset(mem, b, size); // the caller fills what it reserved
+      }
+      return "ok";
+    } catch (const std::logic_error &e) {
+      if (std::string(e.what()).compare(0, 7, "driver:") == 0) throw;
+      return "throws";
+    } catch (const std::exception &) {
+      return "throws";
+    }
   }
 
   Json step(const Json &act) override
@@ -792,31 +853,42 @@ struct FixedWorld : IWorld
     Json o = Json::object();
     if (a == "New") {
       fw.reset(new FixedBufferWriter((size_t)arg["cap"].num()));
+      twin.reset(new FixedBufferWriter((size_t)arg["cap"].num()));
       o.set("ret", "ok");
     } else if (a == "Write" || a == "Reserve") {
       if (!fw) throw std::runtime_error("driver: no writer");
       const long long n = arg["n"].num();
-      const size_t size = (size_t)n; // n < 0: 2^64 + n
       const uint8_t b = (uint8_t)arg["b"].num();
-      try {
-        if (a == "Write") {
-          if (n < 0) throw std::logic_error("driver: a write of a huge size needs a source of that size");
-          std::vector<uint8_t> src((size_t)n, b);
-          fw->write(src.data(), size);
-        } else {
-          void *mem = fw->reserve(size);
-          if (n > 0) std::memset(mem, b, size); // the caller fills what it reserved
-        }
-        o.set("ret", "ok");
-      } catch (const std::logic_error &e) {
-        if (std::string(e.what()).compare(0, 7, "driver:") == 0) throw;
-        o.set("ret", "throws");
-      } catch (const std::exception &) {
-        o.set("ret", "throws");
+      uint8_t *r1 = nullptr, *r2 = nullptr;
+      const std::string ret = put(*fw, a == "Write", n, b, r1);
+      const std::string ret2 = put(*twin, a == "Write", n, b, r2);
+      o.set("ret", ret);
+      if (ret2 != ret) o.set("twin_ret", ret2);
+      if (a == "Reserve" && ret == "ok" && n > 0) {
+        resPtr = r1;
+        resPtrTwin = r2;
+        resLen = (size_t)n;
       }
+    } else if (a == "TakeView") {
+      early = fw->getWrittenView();
+      o.set("ret", "ok");
+    } else if (a == "Refill") {
+      // the most recent reservation is filled (again) now, through the pointers reserve() returned then
+      if (!resPtr) throw std::runtime_error("driver: nothing reserved");
+      std::memset(resPtr, (uint8_t)arg["b"].num(), resLen);
+      if (resPtrTwin) std::memset(resPtrTwin, (uint8_t)arg["b"].num(), resLen);
+      o.set("ret", "ok");
     } else
       throw std::runtime_error("driver: unknown action " + a);
-    o.set("st", state());
+    o.set("st", state(*fw));
+    o.set("twin", state(*twin));
+    if (early) {
+      Json e = Json::object();
+      e.set("n", num(early->size()));
+      e.set("runs", runs(*early, fw->capacity()));
+      o.set("early", e);
+    } else
+      o.set("early", "none");
     return o;
   }
 };
